@@ -21,6 +21,7 @@ structure Leaf where
   timeOK : Time → Bool := fun _ => true  -- the instants the format can write: year 0..9999 in the anchor's own zone
   fmtFloat : Nat → Bytes               -- fmt %v of the float64 with these bits
   parseFloat : Bytes → Option Nat      -- strconv.ParseFloat(·, 64), as bits
+  floatOK : Nat → Bool := fun _ => true  -- the bit patterns a literal holds: every number, and ONE NaN (c010ae5)
 
 def isSpace (b : UInt8) : Bool := b == 32 || b == 9 || b == 10 || b == 13 || b == 11 || b == 12 || b == 0x85 || b == 0xA0
 /-- ASCII white space as `strings.TrimSpace` sees it on ASCII-only ends (U+0085 and U+00A0 are multi-byte
